@@ -34,7 +34,7 @@ var SQLExt = append(append([]string{}, SQLCore...), []string{
 	"e'a'", "E'a\\'b'", "u&'a'", "U&'a'", "q'(a)'", "Q'[a]'", "nq'[a]'", "nQ'{a}'", "q'!a!'", "$$a$$", "$t$a$t$", "$1.00", "$1,000",
 	"@a", "@@a", "@`a`", "@'a'", "@\"a\"", "@@`a`", "[a]", "`a`", "`select`", "`sleep`", "'a'", "\"a\"", "''", "\"\"", "'\\'", "'a''b'",
 	"<=>", "::", ":=", "||", "&&", "!=", "<>", "<=", ">=", "<<", ">>", "!!", "|/", "!<", "!>", "%=", "+=", "*=", "^=", "|=", "&=", "-=", "/=", "!~", "~*",
-	"/*!", "/*!50000", "/*/*", "/**/", "/*a*/", "--x\n", "-- x\n", "#x\n", "--", "-- ", "#",
+	"/*!", "/*!50000", "/*M!", "/*+", "/*/*", "/**/", "/*a*/", "--x\n", "-- x\n", "#x\n", "--", "-- ", "#",
 	"1=1", "'a'='a", "a.b", "select.a", "select`a`", "`a`.`b`", "{", "}", "{`a`", "{a b}", "``",
 	"\\1", "\\%1", "\\", "\t", "\v", "\f", "\r",
 	"aaaaaaaaaaaaaaaaaaaaaaaaaaaaaaa", "aaaaaaaaaaaaaaaaaaaaaaaaaaaaaaaa", "1111111111111111111111111111111", "11111111111111111111111111111111",
@@ -55,6 +55,8 @@ var HTMLFull = append(append([]string{}, HTMLBytes...), []string{
 	"xmlns", "xlink", "xlink:href", "attributename", "by", "to", "from", "action", "datasrc", "javascript:", "JAVASCRIPT:", "java", "data:", "DATA", "vbscript:", "view-source:",
 	"&#106;", "&#x6a", "&#X6A;", "&#", "&#x", "&#0", "&#x0", "&#106", "&#00000106;", "&#x1000100;", "&", "&amp;",
 	"&#60;", "&#x3c;", "&#060", "&#61;", "&#x3D;", "&lt;", "&#62;", "&#34;", "&#39;", "&#x60;", "&#47;",
+	// named references and element names a "more HTML5-conformant" change would start to treat specially
+	"&NewLine;", "&Tab;", "&colon;", "plaintext", "textarea",
 	// non-ASCII letters that Go's strings.ToUpper folds onto ASCII (U+017F -> S, U+0131 -> I) and other multi-byte letters
 	"\xc5\xbf", "\xc4\xb1", "\xc5\xbfcript", "l\xc4\xb1nk", "x\xc5\xbf\xc5\xbf", "ba\xc5\xbfe", "\xc5\xbftyle", "on\xc5\xbfubmit", "\xc4\xb1frame", "\xe2\x84\xaa", "\xc3\x9f", "\xc4\xb0",
 	"iframe", "embed", "object", "meta", "link", "base", "applet", "frame", "xss", "noscript", "isindex", "comment", "listener", "handler", "vmlframe", "frameset",
